@@ -1,7 +1,9 @@
 /-
 Line-protocol driver for the legacy-listener model (property C16).
 
-  case   :=  ['E'|'I'] arity link* final '|' op (';' op)*
+  case   :=  ('E'|'I'|'D'|'K')* arity link* final '|' op (';' op)*
+             ('D' / 'K': the registration is made with deferred=True — by the @on_trait_change
+              decorator when the history starts with `rg`, else / later by the keyword)
              ('E': the implementation side uses a node class with value-based `__eq__` and
               replaces items by equal clones; identity is all the listener may use, so the
               model ignores the flag)
@@ -38,14 +40,17 @@ def parseLink (s : String) : Option Link :=
   | _ => none
 
 def parseName (s : String) : Option Name :=
-  match (words s).dropWhile (fun w => w = "E" || w = "I") with
+  let ws := words s
+  let flags := ws.takeWhile (fun w => w = "E" || w = "I" || w = "D" || w = "K")
+  let deferred := flags.contains "D" || flags.contains "K"
+  match ws.drop flags.length with
   | ar :: rest =>
     let ty := match ar with | "0" => some LType.any | "3" => some LType.src | "4" => some LType.src | _ => none
     match ty, rest.reverse with
     | some ty, fin :: linksRev =>
       let f := match fin with | "v" => some Final.value | "x" => some Final.aux | _ => none
       match f, linksRev.reverse.mapM parseLink with
-      | some f, some links => if links.isEmpty then none else some ⟨links, f, ty⟩
+      | some f, some links => if links.isEmpty then none else some ⟨links, f, ty, deferred⟩
       | _, _ => none
     | _, _ => none
   | [] => none
